@@ -17,8 +17,9 @@ for spec in "$@"; do
   git -C $WT checkout -q -- .
   if ! git -C $WT apply /verif/seeded/$id/patch.diff 2>/dev/null; then echo -e "$id\t-\tPATCH-DOES-NOT-APPLY" >> $OUT; continue; fi
   for c in ${checks//,/ }; do
-    res=$(cd $LAB && timeout 1500 ./check $c quick 2>&1 | tail -4 | tr '\n' ' ' | cut -c1-600)
-    if echo "$res" | grep -q "VIOLATION property=$c"; then v=CAUGHT; elif echo "$res" | grep -q "^OK\| OK property"; then v=missed; else v=other; fi
+    full=$(cd $LAB && timeout 1500 ./check $c quick 2>&1)
+    res=$(echo "$full" | grep -v "^KNOWN-FINDING" | tail -3 | tr '\n' ' ' | cut -c1-500)
+    if echo "$full" | grep -q "^VIOLATION property=$c"; then v=CAUGHT; elif echo "$full" | grep -q "^OK property"; then v=missed; else v=other; fi
     echo -e "$id\t$c\t$v\t$res" >> $OUT
   done
   git -C $WT checkout -q -- .
